@@ -51,6 +51,9 @@ CLAIMED = {
  "C17": ("independently built expected multigraph from the AST compared with the stochastic atom graph (nodes, static / stochastic / termination / transition edge multisets)",
          "For generated molecules of every archetype, with Schulz-Zimm distributions (default call) and other families (expect_schulz_zimm_distribution=False), an expected multigraph is built from the AST: one node per atom with element, charge, aromaticity; static edges in both directions with bond order; stochastic edges with the partner's or the listed weight; termination edges repeat unit -> end group; transition edges between consecutive elements respecting the terminals; nothing leaves an end group. Edge multisets must be equal - no edge missing, none surplus.",
          "Trusted: reference fragments and compatibility rule; all-zero edges ignored on both sides.", "DESIGN.md §2 C17"),
+ "C18": ("invariant over generated structures: residue partition of atom-graph generations (creation-order hint verified, constraint search fallback) against the stochastic atom graph; determinism under equal seeds",
+         "Schulz-Zimm molecules of every archetype are generated through AtomGraph with seeded generators; every generated atom names its stochastic node; the atoms must partition into whole token copies with all atoms and internal bonds, every bond between copies must correspond to a non-static edge of the stochastic atom graph between those nodes with the same bond order, no attachment atom may carry more inter-residue bonds than descriptors, copies form a tree, the graph is connected, to_mol() sanitises, at most 200000 random choices are made, and two generations with equal seeds give equal molecules.",
+         "Trusted: 'stochastic_node' node attribute (public), reference fragments, RDKit sanitisation.", "DESIGN.md §2 C18"),
  "C15": ("breaking operators on generated valid instances with a must-be-rejected oracle (Hypothesis) + byte-level mutation and coverage-guided fuzzing (atheris/libFuzzer) under a deterministic step budget",
          "Generated-input search: 17 breaking operators, each producing an invalid string by construction, are applied at generated positions to valid well-posed molecules of every archetype; the broken string must end in an error at parse or at generate (non-generable for negative weights / missing distribution) - a produced molecule is the violation. Termination of the five constructors is explored with Hypothesis byte mutations of docs/tests strings and two atheris campaigns (seeded and empty corpus) under a line-event budget.",
          "Trusted: each operator's claim that its output is invalid (stated per operator in gbsv/checks/c15.py); termination is bounded liveness: 20000+2000*len line events inside gbigsmiles.", "DESIGN.md §2 C15"),
